@@ -41,16 +41,30 @@ def make_inputs(case):
     axis = gen.unit_axis(g["axis"])
     Rr = [rm.rodrigues(axis * a) for a in yaw]
     Qr = np.array([rm.R_to_quat(R) for R in Rr])
-    keep = rng.uniform(size=n) < float(g["keep"])
-    keep[: min(4, n)] = True
-    idx = np.nonzero(keep)[0]
-    jit = rng.uniform(-1, 1, size=len(idx)) * float(g["jitter"])
-    Te = Tr[idx] + jit - float(case["opts"].get("t_offset", 0.0))
-    Te = np.round(Te, 6)
     R0 = rm.quat_to_R(rm.random_unit_quat(rng))
     c = float(g["scale"])
-    Pe = (c * (R0 @ Pr[idx].T)).T + rng.standard_normal(3) * 3.0 + float(g["noise"]) * rng.standard_normal((len(idx), 3))
-    Qe = np.array([rm.R_to_quat(R0 @ Rr[i] @ rm.rodrigues(rng.standard_normal(3) * 0.05)) for i in idx])
+    off = float(case["opts"].get("t_offset", 0.0))
+    if g.get("est_dense"):
+        # the estimate is sampled twice as densely as the reference (more poses than the reference)
+        m = 2 * n - 1
+        f = np.arange(m) / 2.0
+        lo = np.floor(f).astype(int)
+        hi = np.minimum(lo + 1, n - 1)
+        w = (f - lo)[:, None]
+        Pi = Pr[lo] * (1 - w) + Pr[hi] * w
+        jit = rng.uniform(-1, 1, size=m) * float(g["jitter"])
+        Te = np.round(t0 + 0.5 * dt * np.arange(m) + jit - off, 6)
+        Pe = (c * (R0 @ Pi.T)).T + rng.standard_normal(3) * 3.0 + float(g["noise"]) * rng.standard_normal((m, 3))
+        Qe = np.array([rm.R_to_quat(R0 @ Rr[i] @ rm.rodrigues(rng.standard_normal(3) * 0.05)) for i in lo])
+    else:
+        keep = rng.uniform(size=n) < float(g["keep"])
+        keep[: min(4, n)] = True
+        idx = np.nonzero(keep)[0]
+        jit = rng.uniform(-1, 1, size=len(idx)) * float(g["jitter"])
+        Te = Tr[idx] + jit - off
+        Te = np.round(Te, 6)
+        Pe = (c * (R0 @ Pr[idx].T)).T + rng.standard_normal(3) * 3.0 + float(g["noise"]) * rng.standard_normal((len(idx), 3))
+        Qe = np.array([rm.R_to_quat(R0 @ Rr[i] @ rm.rodrigues(rng.standard_normal(3) * 0.05)) for i in idx])
     if np.any(np.diff(Te) <= 0):
         raise Skip("non-increasing estimate stamps")
     return (Tr, Pr, Qr), (Te, Pe, Qe)
